@@ -18,7 +18,7 @@ import types
 import z3
 
 from . import values as V
-from .core import ctx, Unsupported, BoundExceeded, PathAbort, HarnessError
+from .core import ctx, Unsupported, BoundExceeded, PathAbort, HarnessError, Pruned
 from .values import Sym, SymBool, SymInt, SymReal, SymStr
 
 _MISSING = object()
@@ -533,7 +533,7 @@ class Interp(object):
         try:
             try:
                 st = yield from self.exec_block(s.body, env)
-            except (PathAbort, BoundExceeded, Unsupported, HarnessError, GeneratorExit):
+            except (PathAbort, BoundExceeded, Unsupported, HarnessError, GeneratorExit, Pruned):
                 raise
             except BaseException as e:
                 handler = None
@@ -579,7 +579,7 @@ class Interp(object):
             self.assign(item.optional_vars, val, env)
         try:
             st = yield from self.exec_with(s, i + 1, env)
-        except (PathAbort, BoundExceeded, Unsupported, HarnessError, GeneratorExit):
+        except (PathAbort, BoundExceeded, Unsupported, HarnessError, GeneratorExit, Pruned):
             raise
         except BaseException as e:
             self.exc_stack.append(e)
